@@ -212,6 +212,8 @@ class Contract(object):
 SHAPES_SMALL = [(0,), (1,), (3,), (99,), (100,), (101,), (9, 11), (10, 10), (2, 3, 4)]
 SHAPES_BIG = [(49999,), (50000,), (50001,), (250, 200), (223, 225), (37, 27, 51)]
 DTYPES = ['float64', 'float32', 'complex128', 'complex64', 'int64', 'int32']
+# dtypes outside the BLAS set (extended and half precision, short integers): same decision tree, other leaves
+DTYPES_EXTRA = [d for d in ('longdouble', 'clongdouble', 'float16', 'int16') if np.dtype(d).itemsize != np.dtype({'longdouble': 'float64', 'clongdouble': 'complex128'}.get(d, 'bool')).itemsize or d in ('float16', 'int16')]
 LAYOUTS = [('C', 'C', 'C'), ('F', 'F', 'F'), ('S', 'C', 'F'), ('C', 'S', 'S'), ('F', 'C', 'S')]
 PATTERNS = ['none', 'x1=x2', 'out=x1', 'out=x2', 'all']
 SCAL = [('0', 0), ('1', 1), ('-1', -1), ('gen', 2.5), ('gen2', -0.75), ('cplx', 1.5 - 0.5j)]
@@ -255,9 +257,10 @@ def run_lincomb_lattice(ctx, con):
     rng = ctx.rng('lattice')
     idx = 0
     shapes = SHAPES_SMALL + SHAPES_BIG
-    for shape, dt in itertools.product(shapes, DTYPES):
+    for shape, dt in itertools.product(shapes, DTYPES + DTYPES_EXTRA):
         kind = np.dtype(dt).kind
         big = int(np.prod(shape)) > 1000
+        extra = dt in DTYPES_EXTRA
         sp = odl.tensor_space(shape, dtype=dt)
         for layout3 in LAYOUTS:
             if len(shape) == 1 and layout3[0] == 'F' and layout3 != ('F', 'F', 'F'):
@@ -270,6 +273,8 @@ def run_lincomb_lattice(ctx, con):
                         continue
                     idx += 1
                     if not ctx.mine(idx):
+                        continue
+                    if extra and not ctx.thorough and (idx // ctx.nshards) % 3 != 0:
                         continue
                     # big regime: every mechanism class once per (dtype kind) in quick; all in thorough
                     if big and not ctx.thorough:
@@ -589,6 +594,17 @@ def run_api(ctx, con):
                         for (_p, lx), (_q, lr) in zip(_leaf_arrays(x), _leaf_arrays(r)):
                             if np.shares_memory(lx, lr):
                                 ctx.violation(comp, cfg, 'copy-shares-memory')
+                    if not fl.get('inplace') and not fl.get('inplace_y') and not fl.get('fresh') and n > 0 and hasattr(r, 'space'):
+                        # the result of an out-of-place form is a new element: a later in-place operation on it must not
+                        # reach an operand (x, which is not the output, would be modified)
+                        hit = r is x or r is y
+                        for _q, lr in _leaf_arrays(r):
+                            for op_ in (x, y):
+                                for _p, lo in _leaf_arrays(op_):
+                                    if lr.size and lo.size and np.shares_memory(lr, lo):
+                                        hit = True
+                        if hit:
+                            ctx.violation(comp, cfg, 'result-aliases-operand')
                 except Exception as e:
                     ctx.note_add('monitor-exception:' + type(e).__name__)
         # power-space broadcasting: x (op) base-element
